@@ -31,7 +31,7 @@ func init() {
 			"fragmenting readers obey the io.Reader contract: at least one byte or an error per call for non-empty p; n > 0 may come together with io.EOF",
 			"failure kinds: ok / tracks missing / end-of-data family / other",
 		},
-		Require: []string{"reads_from_sources_with_len_method", "fragmented_reads", "short_reads_in_multibyte_field", "split_points", "eof_with_data_reads", "truncated_files", "compared_ok_values", "compared_failures", "big_payload_files", "big_truncated_reads", "file_and_bufio_reads", "pipe_reads", "extended_header_files"},
+		Require: []string{"reads_from_sources_with_len_method", "files_with_bytes_behind_end_of_track", "fragmented_reads", "short_reads_in_multibyte_field", "split_points", "eof_with_data_reads", "truncated_files", "compared_ok_values", "compared_failures", "big_payload_files", "big_truncated_reads", "file_and_bufio_reads", "pipe_reads", "extended_header_files"},
 		Run:     runC09,
 	})
 }
@@ -101,6 +101,40 @@ func runC09(c *mon.Ctx) {
 			nb = append(nb, r.Bytes(extra)...)
 			b = append(nb, b[14:]...)
 			c.Count("extended_header_files", 1)
+		}
+		if i%9 == 4 || i%9 == 8 {
+			// a track chunk that is longer than its events (bytes behind the end-of-track event inside the
+			// chunk, or two tracks joined in one chunk): whatever the library makes of such a file, it must not
+			// depend on the fragmentation
+			var nb []byte
+			nb = append(nb, b[:14]...)
+			done := false
+			for off := 14; off+8 <= len(b); {
+				ln := int(b[off+4])<<24 | int(b[off+5])<<16 | int(b[off+6])<<8 | int(b[off+7])
+				end := off + 8 + ln
+				if end > len(b) {
+					end = len(b)
+				}
+				if !done && string(b[off:off+4]) == "MTrk" && (end < len(b) || r.P(1, 3)) {
+					pad := r.Bytes(r.Pick(1, 2, 3, 8, 40))
+					if r.Bool() {
+						pad = []byte{0x00, 0x90, 0x3C, 0x40, 0x00, 0xFF, 0x2F, 0x00} // a second event list behind the first end-of-track
+					}
+					ln2 := ln + len(pad)
+					nb = append(nb, b[off:off+4]...)
+					nb = append(nb, byte(ln2>>24), byte(ln2>>16), byte(ln2>>8), byte(ln2))
+					nb = append(nb, b[off+8:end]...)
+					nb = append(nb, pad...)
+					done = true
+				} else {
+					nb = append(nb, b[off:end]...)
+				}
+				off = end
+			}
+			if done {
+				b = nb
+				c.Count("files_with_bytes_behind_end_of_track", 1)
+			}
 		}
 		if i%3 == 1 && len(b) > 15 {
 			b = b[:14+r.Intn(len(b)-14)]
